@@ -24,9 +24,16 @@ def generate(rng, tier="quick"):
     if rng.chance(0.12):
         tbl["xr_time"] = "var"
     cfg = wl.gen_config(rng, tbl, max_ctx=4, max_tests=3)
+    plain = False
+    if tbl.get("unsorted") and not tbl.get("nat") and rng.chance(0.5):
+        # rows out of chronological order and no window anywhere: every front end, XarrayStream included, must cope
+        cfg = wl.gen_config(rng, tbl, max_ctx=1, max_tests=3, window_layout="none")
+        cfg["contexts"] = cfg["contexts"][:1]
+        cfg["contexts"][0]["window"] = None
+        plain = True
     single = len(tbl["cols"]) == 1 and rng.chance(0.3)
     pool = STREAM_FES
-    if tbl.get("unsorted") or tbl.get("nat"):
+    if (tbl.get("unsorted") and not plain) or tbl.get("nat"):
         # label slices need a monotonic index: XarrayStream is not given rows out of chronological order / without a time
         pool = tuple(f for f in STREAM_FES if not f.startswith("xarray"))
     if tbl.get("no_files"):
@@ -46,7 +53,7 @@ def generate(rng, tier="quick"):
         "reruns": [],
         "share_config": rng.chance(0.4),
     }
-    if rng.chance(0.35):
+    if not plain and rng.chance(0.35):
         alt = wl.gen_config(rng, tbl, max_ctx=3, max_tests=2)
         if rng.chance(0.5):
             # the same windows as the main config (equal Context objects), other streams / tests / parameters
@@ -62,7 +69,7 @@ def generate(rng, tier="quick"):
         scn["alt_on"] = rng.subset([f for f in fes if f != "qcconfig"], 0.6, at_least=1)
     if rng.chance(0.2):
         scn["twin_on"] = rng.subset([f for f in fes if f != "qcconfig"], 0.5, at_least=1)
-    if not scn["share_config"] and rng.chance(0.12):
+    if not plain and not scn["share_config"] and rng.chance(0.12):
         # run, Config.add(more), run again on the same Config object (exclusive with user calls below)
         cands = [f for f in fes if f != "qcconfig" and f not in scn.get("twin_on", [])]
         if cands:
@@ -74,7 +81,7 @@ def generate(rng, tier="quick"):
             extra["contexts"] = [c for c in extra["contexts"] if pl.context_key(c)[:2] not in taken]
             if extra["contexts"]:
                 scn["add_after_run"] = {"config": extra, "on": rng.subset(cands, 0.6, at_least=1)}
-    if "add_after_run" not in scn and rng.chance(0.12):
+    if not plain and "add_after_run" not in scn and rng.chance(0.12):
         # the user's own check functions, handed over as Call objects: same name and module, different signatures
         taken = {pl.context_key(c)[:2] for c in cfg["contexts"]}
         wins = [w for w in wl._mixed(rng, wl.boundary_points(rng, tbl["times"]), 4) if (pl.bound_ns(w, "starting"), pl.bound_ns(w, "ending")) not in taken and not tbl.get("no_time")]
@@ -219,6 +226,8 @@ def execute(scn):
         bump("source_without_time_axis")
     if tbl.get("unsorted"):
         bump("rows_not_chronological")
+        if any(f.startswith("xarray") for f in scn["frontends"]):
+            bump("rows_not_chronological_on_xarray")
     if tbl.get("nat"):
         bump("rows_without_time_NaT")
     if tbl.get("frac_ms"):
